@@ -72,6 +72,24 @@ Fixpoint lookup {A} (k : Z) (l : list (Z * A)) : option A :=
 
 Definition keys {A} (l : list (Z * A)) : list Z := map fst l.
 
+(* ---- strings ------------------------------------------------------------------------ *)
+Definition nl : string := String (ascii_of_N 10) "".
+
+(* sep.join(l) *)
+Fixpoint join (sep : string) (l : list string) : string :=
+  match l with
+  | [] => ""
+  | [x] => x
+  | x :: r => x +++ sep +++ join sep r
+  end.
+
+(* str((a, b)) *)
+Definition origin_str (p : Z * Z) : string := "(" +++ dec_Z (fst p) +++ ", " +++ dec_Z (snd p) +++ ")".
+
+(* comment(): ' // ' + '; '.join(map(str, idorigin)) when idorigin is not empty *)
+Definition comment_of (l : list string) : option string :=
+  match l with [] => None | _ => Some (join "; " l) end.
+
 (* ---- surfaces -------------------------------------------------------------- *)
 Section WithSurfaceEq.
 Context {E : Type}.
@@ -237,7 +255,7 @@ Definition prune (skip_dedup : bool) (surfs : stable) (vols : vtable) (u0 u1 : Z
 (* ---- the abstract file ------------------------------------------------------- *)
 Record surf_line := mkSL {
   sl_id : Z; sl_transform : option (list string); sl_type : string; sl_params : list string;
-  sl_comment : list string }.
+  sl_comment : option string }.            (* the text after " // ", if any *)
 
 Record volu_line := mkVL {
   vl_id : Z;
@@ -245,7 +263,7 @@ Record volu_line := mkVL {
   vl_minus : option (N * list Z);
   vl_op : option (opkind * N * list (option Z));
   vl_fictive : bool;
-  vl_comment : list (Z * Z) }.
+  vl_comment : option string }.
 
 Record comp_block := mkCB {
   cb_type : string; cb_name : string; cb_density : option (string * bool);   (* |density| spelling, NB_ATOM *)
@@ -278,10 +296,10 @@ Definition volu_line_of (k : Z) (v : volume) : volu_line :=
         | None => None
         | Some (op, args) => Some (op, N.of_nat (List.length args), args)
         end)
-       (v_fictive v) (v_origin v).
+       (v_fictive v) (comment_of (map origin_str (v_origin v))).
 
 Definition surf_line_of (k : Z) (s : surface) : surf_line :=
-  mkSL k (s_transform s) (s_type s) (s_params s) (s_origin s).
+  mkSL k (s_transform s) (s_type s) (s_params s) (comment_of (s_origin s)).
 
 (* extract_used_surfaces *)
 Definition used_surfaces (vols : vtable) : list Z := mkset (flat_map (fun p => surface_ids (snd p)) vols).
@@ -491,89 +509,78 @@ Arguments stable : clear implicits.
 Arguments wstate : clear implicits.
 
 (* ---- text ------------------------------------------------------------------------------ *)
-Definition nl : string := String (ascii_of_N 10) "".
-
-Fixpoint join (sep : string) (l : list string) : string :=
-  match l with
-  | [] => ""
-  | [x] => x
-  | x :: r => x +++ sep +++ join sep r
-  end.
-
+(* every line is a list of words joined by single blanks, plus the comment *)
 Definition op_name (o : opkind) : string := match o with OUnion => "UNION" | OInte => "INTE" end.
 
 Definition opt_str (x : option Z) : string := match x with Some k => dec_Z k | None => "None" end.
 
-Definition origin_str (p : Z * Z) : string := "(" +++ dec_Z (fst p) +++ ", " +++ dec_Z (snd p) +++ ")".
+Definition comment_str (c : option string) : string :=
+  match c with None => "" | Some c => " // " +++ c end.
 
-Definition comment_str (l : list string) : string :=
-  match l with [] => "" | _ => " // " +++ join "; " l end.
+Definition surf_words (s : surf_line) : list string :=
+  ["SURF"; dec_Z (sl_id s)]
+  ++ (match sl_transform s with None => [] | Some _ => ["TRANSFORM"; dec_Z (sl_id s)] end)
+  ++ sl_type s :: sl_params s.
 
 Definition print_surf (s : surf_line) : list string :=
-  let body := join " " (sl_type s :: sl_params s) in
-  match sl_transform s with
-  | None => ["SURF " +++ dec_Z (sl_id s) +++ " " +++ body +++ comment_str (sl_comment s)]
-  | Some t =>
-      ["TRANSFORM " +++ dec_Z (sl_id s) +++ " MATRIX " +++ join " " t;
-       "SURF " +++ dec_Z (sl_id s) +++ " TRANSFORM " +++ dec_Z (sl_id s) +++ " " +++ body
-         +++ comment_str (sl_comment s)]
-  end.
+  (match sl_transform s with
+   | None => []
+   | Some t => [join " " (["TRANSFORM"; dec_Z (sl_id s); "MATRIX"] ++ t)]
+   end)
+  ++ [join " " (surf_words s) +++ comment_str (sl_comment s)].
 
 (* VolumeT4.__str__ builds a list of parameters (words and numbers) and joins their str()
-   with blanks: the token stream of a volume line *)
-Inductive tok := TW (s : string) | TN (n : N) | TZ (z : Z) | TNone.
-
-Definition tok_str (t : tok) : string :=
-  match t with TW s => s | TN n => dec n | TZ z => dec_Z z | TNone => "None" end.
-
-Definition counted_tokens (kw : string) (x : option (N * list Z)) : list tok :=
+   with blanks *)
+Definition counted_words (kw : string) (x : option (N * list Z)) : list string :=
   match x with
   | None => []
-  | Some (n, l) => TW kw :: TN n :: map TZ l
+  | Some (n, l) => kw :: dec n :: map dec_Z l
   end.
 
-Definition opt_tok (x : option Z) : tok := match x with Some k => TZ k | None => TNone end.
-
-Definition volu_tokens (v : volu_line) : list tok :=
-  [TW "EQUA"] ++ counted_tokens "PLUS" (vl_plus v) ++ counted_tokens "MINUS" (vl_minus v)
+Definition volu_words (v : volu_line) : list string :=
+  ["EQUA"] ++ counted_words "PLUS" (vl_plus v) ++ counted_words "MINUS" (vl_minus v)
   ++ (match vl_op v with
       | None => []
-      | Some (op, n, args) => TW (op_name op) :: TN n :: map opt_tok args
+      | Some (op, n, args) => op_name op :: dec n :: map opt_str args
       end)
-  ++ (if vl_fictive v then [TW "FICTIVE"] else []).
+  ++ (if vl_fictive v then ["FICTIVE"] else []).
 
 Definition print_volu (v : volu_line) : string :=
-  "VOLU " +++ dec_Z (vl_id v) +++ " " +++ join " " (map tok_str (volu_tokens v)) +++ " ENDV"
-  +++ comment_str (map origin_str (vl_comment v)).
+  join " " (["VOLU"; dec_Z (vl_id v)] ++ volu_words v ++ ["ENDV"]) +++ comment_str (vl_comment v).
 
 Definition geometry_head : list string :=
   ["LANG ENGLISH"; ""; "GEOMETRY"; ""; "TITLE title"; ""; "HASH_TABLE"; ""].
 
-Definition print_comp (b : comp_block) : list string :=
-  let items := match cb_items b with
-               | [] => ["  "]
-               | l => map (fun p => "  " +++ fst p +++ " " +++ snd p) l
-               end in
+Definition comp_head_words (b : comp_block) : list string :=
   match cb_density b with
-  | None => (cb_type b +++ " 300 " +++ cb_name b +++ " " +++ dec (cb_count b)) :: items
-  | Some (d, nb) =>
-      (cb_type b +++ " 300 " +++ cb_name b +++ " " +++ d +++ " " +++ (if nb then "NB_ATOM" else "") +++ " "
-         +++ dec (cb_count b)) :: items
+  | None => [cb_type b; "300"; cb_name b; dec (cb_count b)]
+  | Some (d, nb) => [cb_type b; "300"; cb_name b; d; (if nb then "NB_ATOM" else ""); dec (cb_count b)]
   end.
+
+(* "\n  ".join(name + ' ' + abd ...) after "\n  ": one line per nuclide, a line of two
+   blanks when there is none *)
+Definition print_comp (b : comp_block) : list string :=
+  join " " (comp_head_words b)
+  :: match cb_items b with
+     | [] => [join " " [""; ""; ""]]
+     | l => map (fun p => join " " [""; ""; fst p; snd p]) l
+     end.
 
 (* the m0 block is written literally by the code ("POINT_WISE 300 m0 1\n  HE4 1E-30\n\n") *)
 Definition print_comps (c : N * list comp_block) : list string :=
   [""; "COMPOSITION"; dec (fst c)] ++ flat_map print_comp (snd c) ++ [""; "END_COMPOSITION"].
 
-Definition print_gc (g : gc_line) : string :=
-  gc_name g +++ " " +++ dec (gc_count g) +++ " " +++ join " " (map dec_Z (gc_vols g)).
+Definition gc_words (g : gc_line) : list string :=
+  [gc_name g; dec (gc_count g)] ++ match gc_vols g with [] => [""] | l => map dec_Z l end.
+
+Definition print_gc (g : gc_line) : string := join " " (gc_words g).
 
 Definition print_geomcomp (g : list gc_line) : list string :=
   [""; "GEOMCOMP"] ++ map print_gc g ++ ["END_GEOMCOMP"].
 
 Definition print_bc (b : N * list (string * Z)) : list string :=
   [""; "BOUNDARY_CONDITION"; dec (fst b)]
-  ++ map (fun p => "ALL_COMPLETE " +++ fst p +++ " " +++ dec_Z (snd p)) (snd b)
+  ++ map (fun p => join " " ["ALL_COMPLETE"; fst p; dec_Z (snd p)]) (snd b)
   ++ ["END_BOUNDARY_CONDITION"].
 
 Definition opt_lines {A} (f : A -> list string) (x : option A) : list string :=
@@ -595,5 +602,7 @@ Definition print_outcome (o : outcome) : list string :=
   | Raised f _ => print_file f
   end.
 
-Definition print_text (o : outcome) : string :=
-  match print_outcome o with [] => "" | l => join nl l +++ nl end.
+(* the text: every line followed by a newline *)
+Definition unlines (l : list string) : string := join nl (l ++ [""]).
+
+Definition print_t4 (f : file) : string := unlines (print_file f).
